@@ -92,12 +92,21 @@ def gen_case_b(rnd, tier):
     n = rnd.randint(2, 5)
     q = rnd.uniform(0.1, 0.9)
     rows = []
+    # the shape of A: full; diagonal (every loop is a cell that refers to itself); lower
+    # triangular (self-references and a chain between them, no loop of two or more cells)
+    shape = rnd.choice(('full', 'full', 'full', 'full', 'diag', 'lower'))
+    if shape != 'full' and rnd.random() < 0.3:
+        n = 1
     for i in range(n):
-        if rnd.random() < 0.4:
+        if shape == 'full' and rnd.random() < 0.4:
             c = rnd.uniform(-1, 1) * q / n
             rows.append({'kind': 'sum', 'c': c})
         else:
             w = [rnd.uniform(-1, 1) for _ in range(n)]
+            if shape == 'diag':
+                w = [x if j == i else 0.0 for j, x in enumerate(w)]
+            elif shape == 'lower':
+                w = [x if j <= i else 0.0 for j, x in enumerate(w)]
             s = sum(abs(x) for x in w)
             scale = q * rnd.uniform(0.3, 1) / s
             rows.append({'kind': 'explicit', 'w': [x * scale for x in w]})
@@ -105,15 +114,16 @@ def gen_case_b(rnd, tier):
     iterations = rnd.choice((1, 2, 3, 10, 50, 200))
     tolerance = 10 ** rnd.uniform(-6, -1)
     cfg = {'workload': 'B', 'n': n, 'rows': rows, 'b': b, 'iter': [iterations, tolerance],
+           'shape': shape,
            'origin': rnd.choice(('nodata', 'nodata', 'xlsx')),
-           'extra': rnd.random() < 0.4}
+           'extra': rnd.random() < 0.4 and n > 1}
     targets = [f'S!B{i + 1}' for i in range(n)] + (['S!C1'] if cfg['extra'] else [])
     if rnd.random() < 0.15:
         # a workbook that asks for iterative calculation without saying how many passes or
         # how exact: pycel's documented fall-back (10000 passes, 0.01) is what was requested
         cfg['iter'] = [None, None]
         cfg['origin'] = 'nodata'
-    if rnd.random() < 0.2:
+    if rnd.random() < 0.2 and shape == 'full':
         cfg['cse_q'] = round(rnd.uniform(0.1, 0.8), 3)
         cfg['rows'] = [{'kind': 'cse'}] * n
         cfg['origin'] = 'nodata'
@@ -176,13 +186,16 @@ def spec_b(cfg):
     for i, row in enumerate(cfg['rows']):
         if row['kind'] == 'sum':
             body = f'{row["c"]!r}*SUM(B1:B{n})+A{i + 1}'
+            used = list(range(n))
         else:
-            body = '+'.join(f'{w!r}*B{j + 1}' for j, w in enumerate(row['w'])) + f'+A{i + 1}'
+            used = [j for j, w in enumerate(row['w']) if w != 0.0]
+            body = '+'.join([f'{row["w"][j]!r}*B{j + 1}' for j in used] + [f'A{i + 1}'])
         body = body.replace('+-', '-')
         cells.append({'a': f'S!B{i + 1}', 'f': f'=PROBE("B{i + 1}",{body})',
-                      'p': [f'S!B{j + 1}' for j in range(n)] + [f'S!A{i + 1}'], 'd': []})
+                      'p': [f'S!B{j + 1}' for j in used] + [f'S!A{i + 1}'], 'd': []})
     if cfg.get('extra'):
-        cells.append({'a': 'S!C1', 'f': '=B1+B2', 'p': ['S!B1', 'S!B2'], 'd': []})
+        second = 'B2' if n > 1 else 'A1'
+        cells.append({'a': 'S!C1', 'f': f'=B1+{second}', 'p': ['S!B1', f'S!{second}'], 'd': []})
     return {'sheets': ['S'], 'active': 'S', 'data_sheet': None, 'cells': cells, 'names': {},
             'iter': cfg['iter'], 'pinned': []}
 
